@@ -126,6 +126,11 @@ def random_problem(rng, n, steps, dt=None, local=True, phases=True, scale=1.0, x
                 phi[k, :] = 0.0 if k < steps // 2 else np.pi
             else:
                 phi[k, :] = rng.choice(specials)
+    if steps >= 3 and rng.random() < 0.35:
+        # idle steps (delay between pulses): no drive at all, but the interactions keep acting
+        for k in rng.sample(range(1, steps), rng.randint(1, min(3, steps - 1))):
+            omega[k, :] = 0.0
+            delta[k, :] = 0.0
     pos = np.array([[rng.uniform(0, 4), rng.uniform(0, 4)] for _ in range(n)])
     for _ in range(200):  # keep atoms apart
         d = np.linalg.norm(pos[:, None] - pos[None], axis=-1) + np.eye(n) * 10
